@@ -65,6 +65,7 @@ def run(ctx):
         kw = ctx.rng.choice([{}, {}, {"xtol": 1e-10}, {"rtol": 1e-12}, {"maxiter": 200}, {"xtol": 1e-11, "rtol": 1e-13, "maxiter": 300}])
         cases.append((n, x, cl, alt, p0, kw))
     results = {}
+    ctx.rng.shuffle(cases)          # arbitrary call order: a result must not depend on earlier calls (caches, sticky keywords)
     for (n, x, cl, alt, p0, kw) in cases:
         r = guarded(utils.binom_conf_interval, n, x, cl, alt, p0, **kw)
         det = {"call": "binom_conf_interval", "n": n, "x": x, "cl": cl, "alternative": alt, "p": p0, "kwargs": kw}
